@@ -70,7 +70,7 @@ PROPS = {
     ),
     'C08': dict(
         title='Shift / scale invariance, time-reversal mirror', level='other',
-        groups=both(['mirror_isi.B', 'mirror_spike.B', 'mirror_sync.B', 'mirror_order.B', 'affine_isi.B', 'affine_spike.B', 'affine_sync.B', 'affine_order.B', 'mirror_isilen.B']),
+        groups=both(['lemmas.symmetry', 'isi_py.P', 'sync_py.P', 'order_py.P', 'mirror_isi.B', 'mirror_spike.B', 'mirror_sync.B', 'mirror_order.B', 'affine_isi.B', 'affine_spike.B', 'affine_sync.B', 'affine_order.B', 'mirror_isilen.B']),
         technique='bounded relational (two-run) symbolic execution of the real kernels on transformed inputs',
         explanation='each kernel is executed symbolically on (s1,s2) and on the transformed trains; outputs are related as the statement says',
     ),
